@@ -56,6 +56,76 @@ SMALL = [
 ]
 
 
+MAIN = "function main() -> void { echo(1); }\n"
+# programs analysed FIRST on a shared analyser: they define names / stop analysis in the middle of some context
+POISON = [
+    "function f() -> void { }\n" + MAIN,
+    "function f() -> int { return 1; }\n" + MAIN,
+    "function f(int a, int b) -> string { return \"s\"; }\n" + MAIN,
+    "class K { public int z = 1; public constructor() -> K = default; public function m() -> int { return 1; } }\nfunction f() -> K { return new K(); }\n" + MAIN,
+    "class K<T> { public T v; public constructor(T x) -> K<T> { this.v = x; } }\nfunction main() -> void { K<int> k = new K<int>(1); echo(k.v); }\n",
+    "class K { public int z = 1; public constructor() -> K = default; public static function s() -> int { return this.z; } }\n" + MAIN,
+    "class K { public final int a; public constructor() -> K { if (true) { this.a = 1; } } }\n" + MAIN,
+    "class K { public final int a; public final int b; public constructor() -> K { this.a = 1; this.b = nosuch; } }\n" + MAIN,
+    "function f() -> int { return \"s\"; }\n" + MAIN,
+    "class K<T> { public T v; public constructor() -> K<T> { this.v = 1; } }\n" + MAIN,
+    "function main() -> void { for (int i = 0; i < 1; i = i + 1) { { int q = nosuch; } } }\n",
+    "class K { public int z = 1; public constructor() -> K = default; public destructor() -> void { int q = nosuch; } }\n" + MAIN,
+    "function f( -> void { }\n" + MAIN,
+    "function f() -> void { string s = \"unterminated; }\n" + MAIN,
+    "@shots(3)\nfunction main() -> void { @tracked qubit q; h(q); }\n@quantum\nfunction f() -> bit { qubit q; bit b = measure q; return b; }\n",
+    "class K { public int z = 1; public constructor() -> K = default; public function m(int T) -> int { int i = 0; int q = 1; return i + q + T; } }\n"
+    "function main() -> void { int i = 0; int q = 0; K T = new K(); echo(T.m(i + q)); }\n",
+    "class K { public virtual function f() -> int; public constructor() -> K = default; }\nfunction main() -> void { K k = new K(); }\n",
+]
+# programs analysed NEXT: their verdict must be the one a fresh analyser gives
+SENSITIVE = [
+    "function main() -> void { f(); }\n",
+    "function main() -> void { int x = f(); echo(x); }\n",
+    "function main() -> void { string x = f(1, 2); echo(x); }\n",
+    "class C { public constructor() -> C = default; public function f() -> int { return 1; } public function g() -> int { int x = f(); return x; } }\n" + MAIN,
+    "class C { public constructor() -> C = default; public function f() -> string { return \"a\"; } public function g() -> string { return f(); } }\n" + MAIN,
+    "class C { public constructor() -> C = default; public function f() -> void { } public function g() -> void { f(); } }\n" + MAIN,
+    "class C { public constructor() -> C = default; public function f(int a) -> int { return a; } public function g() -> int { return f(2); } }\n" + MAIN,
+    "function main() -> void { K k = new K(); }\n",
+    "class K { public string z = \"a\"; public constructor() -> K = default; }\nfunction main() -> void { K k = new K(); string s = k.z; echo(s); }\n",
+    "class K { public constructor() -> K = default; }\nfunction main() -> void { K k = new K(); echo(k.z); }\n",
+    "function g(T x) -> void { }\n" + MAIN,
+    "class F { public final int a; public constructor() -> F { this.a = 1; } }\nfunction main() -> void { F x = new F(); echo(x.a); }\n",
+    "class I { public int z = 1; public constructor() -> I = default; public function m() -> int { return this.z; } }\nfunction main() -> void { I x = new I(); echo(x.m()); }\n",
+    "function v() -> void { return; }\nfunction w() -> int { return 1; }\nfunction main() -> void { v(); echo(w()); }\n",
+    "function main() -> void { int i = 0; int q = 1; int T = 2; int z = 3; int a = 4; int b = 5; echo(i + q + T + z + a + b); }\n",
+    "@shots(2)\nfunction main() -> void { echo(1); }\n",
+    "class K2<T> { public T v; public constructor(T x) -> K2<T> { this.v = x; } }\nfunction main() -> void { K2<string> k = new K2<string>(\"a\"); echo(k.v); }\n",
+    "class S { public static int c = 0; public constructor() -> S = default; public static function s() -> int { return c; } public function m() -> int { return this.q(); } "
+    "private function q() -> int { return 2; } }\nfunction main() -> void { echo(S.s()); }\n",
+    "function main() -> void { int x = m(); }\n",
+    "function main() -> void { bit b = f(); echo(b); }\n",
+]
+
+
+def reuse_matrix():
+    """(violations, pairs): every SENSITIVE program analysed on a shared analyser right after every POISON program must get the verdict a
+    fresh analyser gives it"""
+    fresh = runner.run_jobs([{"id": i, "stage": "front", "src": s_} for i, s_ in enumerate(SENSITIVE)], variant="asan")
+    jobs = []
+    meta = {}
+    for pi, p1 in enumerate(POISON):
+        for si, p2 in enumerate(SENSITIVE):
+            jobs.append({"id": len(jobs), "stage": "front", "src": p1, "reuse_analyser": True, "timeout_ms": 5000})
+            meta[len(jobs)] = (pi, si)
+            jobs.append({"id": len(jobs), "stage": "front", "src": p2, "reuse_analyser": True, "timeout_ms": 5000})
+    res = runner.run_jobs(jobs, variant="asan", procs=1, per_job_timeout=8)
+    bad = []
+    for jid, (pi, si) in meta.items():
+        r, f = res[jid], fresh[si]
+        if (r["status"], r.get("what", "")) != (f["status"], f.get("what", "")):
+            bad.append({"what": "analyser reuse: after analysing program #1 the SAME analyser judges program #2 as '%s' (%s); a fresh analyser says '%s' (%s)"
+                                % (r["status"], r.get("what", "").strip()[:120], f["status"], f.get("what", "").strip()[:120]),
+                        "first": POISON[pi], "second": SENSITIVE[si], "reused": r, "fresh": f})
+    return bad, len(meta)
+
+
 def nested(depth):
     a = "function main() -> void { echo(" + "(" * depth + "1" + ")" * depth + "); }\n"
     b = "function main() -> void " + "{ " * depth + "echo(1);" + " }" * depth + "\n"
@@ -198,11 +268,14 @@ def run(tier, seed):
         stop = err.count("Stopping program execution")
         if rr["rc"] != 1 or len(cat) != 1 or stop != 1:
             bad.append((j, "CLI: rejected input must give status 1 with exactly one categorised diagnostic; got status %d, %d diagnostics %s" % (rr["rc"], len(cat), err[-200:]), rr))
+    rbad, npairs = reuse_matrix()
+    for k, b in enumerate(rbad[:6]):
+        out.violation(b["what"], b, "reuse%d" % k)
     for n, (j, msg, r) in enumerate(bad[:8]):
         out.violation(msg, {"what": msg, "input": j.get("src", j.get("src_hex")), "hex": "src_hex" in j, "result": r}, "in%d" % j["id"])
     cov = {"states": sum(t.distinct for t in trs), "transitions": sum(t.generated for t in trs), "process_logs_validated": len(trs), "traces_validated_against_impl": sum(term.values()),
            "inputs_by_kind": dict(collections.Counter(k for k, _ in inputs)), "terminal_events": dict(term),
-           "sentinels": sum(1 for v in meta.values() if v[0] == "sentinel"), "cli_diagnostics_checked": cli_checked,
+           "sentinels": sum(1 for v in meta.values() if v[0] == "sentinel"), "reuse_pairs": npairs, "cli_diagnostics_checked": cli_checked,
            "samples": [{"kind": inputs[200][0], "input": str(inputs[200][1])[:300]}],
            "rule": "every single-token deletion, and seeded replacements and insertions (over a 100-token alphabet incl. out-of-range and malformed "
                    "literals) at every token position of valid seed programs (generated classical, class, quantum programs and the repository's "
@@ -211,5 +284,5 @@ def run(tier, seed):
                    "build, 5 s watchdog) with a known-good and a known-bad sentinel every 50 inputs. The event log (begin, terminal event, sentinel "
                    "verdicts) is validated by TLC against RunLifecycle.tla, which admits only accepted / lexical / parse / semantic."}
     vlib.write_evidence(PID, tier, seed, "model_checking", cov,
-                        ["import loading is exercised with single-file inputs here (multi-file trees: C19)"], time.time() - t0, len(bad))
+                        ["import loading is exercised with single-file inputs here (multi-file trees: C19)"], time.time() - t0, len(bad) + len(rbad))
     return out.finish()
